@@ -124,6 +124,11 @@ pub struct Profile {
     /// percentage of modules that get a reference cycle between two definitions
     /// (`A { .., back: Option<Box<B>> }` where B already refers to A)
     pub cycles: u32,
+    /// percentage of type names taken from a pool of very long names
+    pub long_names: u32,
+    /// percentage of non-unit variants that get `#[ts(as = "..")]` naming another type (only
+    /// where no values are compared: the binding then describes that type, not the variant)
+    pub variant_as: u32,
     /// generate `bson::oid::ObjectId` although its binding is a listed finding
     pub known_objectid: bool,
 }
@@ -171,6 +176,8 @@ impl Profile {
             flatten_tower: 0,
             ext_types: false,
             cycles: 0,
+            long_names: 0,
+            variant_as: 0,
             known_objectid: false,
         }
     }
@@ -199,6 +206,11 @@ const TYPE_NAMES: &[&str] = &[
     "User", "Account", "Item", "Point", "Shape", "Event", "Config", "Wrapper", "Pair", "Tree", "Msg", "Status", "Inner", "Outer",
     "Payload", "Record_", "Entry", "Page", "Page2", "Foo", "FooBar", "Bar", "Baz", "AnExtraordinarilyLongTypeNameForTheSakeOfLineWidth",
     "AnotherRatherLongTypeNameThatGoesOnAndOnAndOn",
+];
+/// names long enough for an import statement to exceed a formatter's line width
+const LONG_TYPE_NAMES: &[&str] = &[
+    "AnExtraordinarilyLongTypeNameForTheSakeOfLineWidth", "AnotherRatherLongTypeNameThatGoesOnAndOnAndOn", "YetAnotherVeryLongTypeNameForImportStatements",
+    "TheFourthUnreasonablyLongTypeNameOfThisModule", "ALongNameButNotTheLongestOneInThePoolOfNames", "SomethingDescriptiveAndThereforeLongAsTypeName",
 ];
 const UNUSUAL_TYPE_NAMES: &[&str] = &["r#type_", "Größe", "T_1", "_Hidden", "Ünï", "snake_type", "X", "Zz", "r#Match"];
 const RENAME_PLAIN: &[&str] = &["renamed", "Other", "x2", "camelName", "snake_name", "ID"];
@@ -878,7 +890,8 @@ impl Cx<'_> {
 
     fn gen_type(&mut self, t: &mut Tape) -> TypeDef {
         let unusual = self.p.unusual_idents / 2;
-        let ident = self.names.fresh(t, &[TYPE_NAMES, UNUSUAL_TYPE_NAMES], &[100 - unusual, unusual], "Ty");
+        let long = self.p.long_names.min(100 - unusual);
+        let ident = self.names.fresh(t, &[TYPE_NAMES, UNUSUAL_TYPE_NAMES, LONG_TYPE_NAMES], &[100 - unusual - long, unusual, long], "Ty");
         let mut params = vec![];
         let mut lifetimes = vec![];
         let mut consts = vec![];
@@ -1042,6 +1055,25 @@ impl Cx<'_> {
                 let k = 1 + t.choose(nv - 1);
                 for v in variants.iter_mut().skip(nv - k) {
                     v.untagged = true;
+                }
+            }
+            // `#[ts(as = "..")]` on a variant with a payload: the binding of the variant is that type
+            if self.p.variant_as > 0 {
+                let cands: Vec<usize> = (0..self.types.len()).filter(|i| self.types[*i].params.is_empty() && self.types[*i].lifetimes.is_empty() && self.types[*i].consts.is_empty()).collect();
+                for v in variants.iter_mut() {
+                    let plain_payload = match &v.body {
+                        VBody::Unit => false,
+                        VBody::Newtype(f) => !f.skip,
+                        VBody::Tuple(fs) | VBody::Named(fs) => !fs.is_empty(),
+                    };
+                    if plain_payload && v.rename_all.is_none() && !cands.is_empty() && t.pct(self.p.variant_as) {
+                        let u = TyExpr::User(*t.pick(&cands), vec![]);
+                        v.as_type = Some(match t.choose(3) {
+                            0 => TyExpr::Vec(Box::new(u)),
+                            1 => TyExpr::Option(Box::new(u)),
+                            _ => u,
+                        });
+                    }
                 }
             }
             // `#[ts(as = "..")]` on a unit variant of a tagged enum: legal, and without effect on the
